@@ -48,7 +48,10 @@ Not demanded (deliberately left open: Snowflake raises or is not documented unam
   * FLATTEN of objects and scalars, FLATTEN's INDEX/KEY/PATH/SEQ/THIS columns, TABLE(FLATTEN(...)), positional input;
   * whitespace / key order of JSON text; the Python type of numbers (int/float/Decimal) and of constructor results;
   * dot after a bracket outside a colon path (v[0].a), GET_PATH with a leading index, GET(), negative indices,
-    object constants {'a': 1}, PARSE_JSON of '' / single-quoted JSON / trailing commas (Snowflake is lenient there).
+    object constants {'a': 1}, PARSE_JSON of '' / single-quoted JSON / trailing commas (Snowflake is lenient there);
+  * two or more brackets written directly on a PARSE_JSON(..) literal or on a constructor call (PARSE_JSON('..')[0][1],
+    [[1]][0][0]): explored on the table columns only -- on literals DuckDB types the intermediate value differently
+    and the same defect (only the last bracket is rewritten) shows up in other, typing-dependent ways.
 """
 from __future__ import annotations
 
@@ -285,6 +288,13 @@ def formclass(form: str) -> str:
     if len(lead) == 1:
         return "b1:p" if rest else "b1"
     return "bb.K" if "K" in lead[:-1] else "bb.I"
+
+
+def formclass_ops(form: str) -> str:
+    """formclass as far as operations on top of the extraction are concerned: 'b' = the last step is a bracket written
+    on the source or on another such bracket (b1, bb.I, bb.K)"""
+    fc = formclass(form)
+    return "b" if fc in ("b1", "bb.I", "bb.K") else fc
 
 
 def shifted_steps(steps, form):
@@ -558,6 +568,7 @@ def _chunks(xs, n):
 # the document around the target, the source column vs literal, the particular spelling among equivalent syntaxes --
 # was found not to matter and is left out so that one defect is one class).
 #   fc     written shape of the access (see formclass)          shift  see shift_feature (bb.I shapes only)
+#   fco    the same, coarser (see formclass_ops)
 #   op     operation id                                          kind   kind of the navigated value
 #   elems  'dec+int' when the value comes out of an array literal / ARRAY_CONSTRUCT mixing integers and decimals
 #   cause  constructor shape (see ctor_cause)
@@ -565,10 +576,10 @@ DEFAULT_FEATURES = ("source", "fc", "op", "kind")
 CLASS_FEATURES: dict = {
     "C11.extract": ("fc", "shift"),
     "C11.missing": ("fc", "shift", "op"),
-    "C11.text": ("fc", "op", "kind", "elems"),
-    "C11.cast": ("fc", "op", "kind"),
+    "C11.text": ("fco", "op", "kind", "elems"),
+    "C11.cast": ("fco", "op", "kind"),
     "C11.array_size": ("kind",),
-    "C11.context": ("fc", "op", "kind"),
+    "C11.context": ("fco", "op", "kind"),
     "C11.context_uncast": ("op", "kind"),
     "C11.flatten": ("source", "fc", "op", "kind", "alias", "case"),
     "C11.construct": ("op", "style", "cause", "kind", "case"),
@@ -798,12 +809,16 @@ def work_col(item, acc, tier):
                         acc.outcome((o, kind, form, "fail" if bad else "ok"))
                         for rf in sorted(stats, key=str):
                             n, nfail, example = stats[rf]
-                            feats = {"source": source, "syntax": sy, "form": form, "fc": fc, "shape": shape_of(steps), "op": o, "kind": kind}
+                            feats = {"source": source, "syntax": sy, "form": form, "fc": fc, "fco": formclass_ops(form),
+                                     "shape": shape_of(steps), "op": o, "kind": kind}  # fmt: skip
                             if rf is not None:
                                 feats["shift"] = rf
                             _record(acc, clause_of(o, t0), feats, n, nfail, example)
-    if pi % 97 == 0:
-        acc.sample({"mode": "col", "source": source, "path": list(steps), "renderings": [r[1] for r in rends], "documents": len(docs)})
+    if steps in (("a", 0), ("a", "B"), (0, "a"), ("a", "B", 0)):
+        d = next((i for i, t in enumerate(targets) if isinstance(t, str)), 0)
+        acc.sample({"mode": "col", "source": source, "path": list(steps), "renderings": [r[1] for r in rends], "documents": len(docs),
+                    "one_document": docs[d], "navigated": core.jsonable(None if targets[d] is J.MISSING else targets[d]),
+                    "some_expressions": [OPS[o]["tpl"].format(x=rends[0][1]) for o in ("raw", "varchar", "array_size", "c_and", "u_concat")]})  # fmt: skip
     return None
 
 
@@ -897,8 +912,6 @@ def work_flat(item, acc, tier):
                     feats = {"source": "v", "syntax": sy, "form": form, "fc": formclass(form), "shape": shape_of(steps),
                              "op": "flatten." + cid, "kind": kind, "alias": "yes" if alias else "no"}  # fmt: skip
                     _record(acc, "C11.flatten", feats, len(ids), nfail, example)
-    if pi % 97 == 0:
-        acc.sample({"mode": "flat", "path": list(steps), "sql": f"select f.value from j t, lateral flatten(input => {renderings('t.v', steps, ['colon'])[0][1]}) f"})
     return None
 
 
@@ -962,7 +975,8 @@ def _path_cells(src, source_name, doc, steps_list, ops_for, extra_feats, chained
                     continue  # a dependency is not demanded here
                 deps = [idx[d] for d in OPS[o]["deps"]]
                 idx[o] = len(cells)
-                feats = {"source": source_name, "syntax": sy, "form": form, "fc": formclass(form), "shape": shape_of(steps), "op": o, "kind": kind}
+                feats = {"source": source_name, "syntax": sy, "form": form, "fc": formclass(form), "fco": formclass_ops(form),
+                         "shape": shape_of(steps), "op": o, "kind": kind}  # fmt: skip
                 if sh is not None:
                     feats["shift"] = sh
                 feats.update(extra_feats)
@@ -984,7 +998,7 @@ def lit_cells(doc):
         return ALL_IDS if sy == "colon" else VALUE_IDS
 
     cells = [root]
-    for c in _path_cells(src, "lit", doc, relevant_paths(doc), ops, {}):
+    for c in _path_cells(src, "lit", doc, relevant_paths(doc), ops, {}, chained=False):
         c["deps"] = [d + 1 for d in c["deps"]] + [0]
         cells.append(c)
     return cells
@@ -1205,7 +1219,7 @@ def work_misc(item, acc, tier):
             cells.append({"expr": f"{fn}(NULL)", "mode": "json", "exp": None, "clause": "C11.construct", "deps": [],
                           "feats": {"source": "lit", "op": fn, "kind": "sqlnull", "form": "null"}, "key": (fn, None)})  # fmt: skip
             cells.append({"expr": f"{fn}('{{\"a\":\"Str\"}}'):a::varchar", "mode": "text", "exp": "Str", "clause": "C11.text", "deps": [],
-                          "feats": {"source": "lit", "op": fn + "+varchar", "kind": "str", "form": "p"}, "key": (fn, "path")})  # fmt: skip
+                          "feats": {"source": "lit", "fco": "p", "op": "varchar", "kind": "str"}, "key": (fn, "path")})  # fmt: skip
         run_cells(cur, acc, cells)
     elif what == "nullkey":
         for sql, exp, cause in NULLKEY_CASES:
@@ -1246,7 +1260,7 @@ def work_misc(item, acc, tier):
                     else:
                         tgt = nav(parts, (elem,))
                         clause = clause_of(name, tgt)
-                        feats = {"source": "split", "fc": "b1", "op": name, "kind": J.kind_of(tgt)}
+                        feats = {"source": "split", "fc": "b1", "fco": "b", "op": name, "kind": J.kind_of(tgt)}
                     _record(acc, clause, feats, 1, 0 if ok else 1, example)
             tail = f" from st, lateral flatten(input => split(s, {_sqlstr(sep)})) f"
             fcols = [("flatten(split).value", "f.value", "json", lambda e: e), ("flatten(split).value::varchar", "f.value::varchar", "text", J.to_text)]
@@ -1276,7 +1290,7 @@ def work_misc(item, acc, tier):
                               "feats": {"source": "split", "op": "split", "kind": sk, "form": "lit"}, "key": ("split-lit", s, sep)})  # fmt: skip
                 tgt = J.navigate(parts, (0,)) if parts is not None else J.MISSING
                 cells.append({"expr": f"{x}[0]::varchar", "mode": "text", "exp": J.to_text(tgt), "clause": clause_of("varchar", tgt), "deps": [base],
-                              "feats": {"source": "split", "fc": "b1", "op": "varchar", "kind": J.kind_of(tgt)}, "key": ("split-lit0", s, sep)})  # fmt: skip
+                              "feats": {"source": "split", "fc": "b1", "fco": "b", "op": "varchar", "kind": J.kind_of(tgt)}, "key": ("split-lit0", s, sep)})  # fmt: skip
                 cells.append({"expr": f"array_size({x})", "mode": "num", "exp": J.array_size(parts), "clause": "C11.split", "deps": [base],
                               "feats": {"source": "split", "op": "array_size(split)", "kind": sk, "form": "lit"}, "key": ("split-lits", s, sep)})  # fmt: skip
         run_cells(cur, acc, cells)
